@@ -2,17 +2,17 @@
 //
 // Three monitors over the REAL code (certManager, verifyRawCerts, the transport's Dial):
 //
-//   manager_test.go   the cert manager on a mock clock, stepped over a grid that is dense around every
-//                     instant at which anything changes (timeline_test.go makes each step deterministic):
-//                     validity/lifetime of the served certificate, advertised hashes (address component
-//                     and Noise early data) now and retrospectively, determinism against a manager
-//                     started fresh at the same instant, independent integer bucket arithmetic.
-//   verify_test.go    the dialer's verifier on crypto/x509-generated certificates with ground-truth
-//                     labels (key/signature algorithm, lifetime, validity window around the real now),
-//                     hash lists (exact, absent, other multihash code, empty) and chains (empty, of two).
-//   dial_test.go      the real transport dialing over loopback UDP against a scripted server whose
-//                     certificate chain and confirmed hashes are ground truth, and against the real
-//                     listener.
+//	manager_test.go   the cert manager on a mock clock, stepped over a grid that is dense around every
+//	                  instant at which anything changes (timeline_test.go makes each step deterministic):
+//	                  validity/lifetime of the served certificate, advertised hashes (address component
+//	                  and Noise early data) now and retrospectively, determinism against a manager
+//	                  started fresh at the same instant, independent integer bucket arithmetic.
+//	verify_test.go    the dialer's verifier on crypto/x509-generated certificates with ground-truth
+//	                  labels (key/signature algorithm, lifetime, validity window around the real now),
+//	                  hash lists (exact, absent, other multihash code, empty) and chains (empty, of two).
+//	dial_test.go      the real transport dialing over loopback UDP against a scripted server whose
+//	                  certificate chain and confirmed hashes are ground truth, and against the real
+//	                  listener.
 package c18
 
 import (
@@ -97,6 +97,9 @@ func TestC18(t *testing.T) {
 	r.Require("mgr_restarts", r.Pick(500, 5000))
 	r.Require("mgr_fresh_managers_compared", r.Pick(20000, 200000))
 	r.Require("mgr_tie_instants", 100)
+	if os.Getenv("VERIF_RACE") != "1" { // the race pass runs no virtual-time traces
+		r.Require("mgr_certificate_derivations_failed_once", 20)
+	}
 	r.Require("listen_histories_with_failed_listens_checked", 1)
 	r.Require("mgr_retro_next_checks", r.Pick(10000, 100000))
 	r.Require("mgr_retro_confirm_checks", r.Pick(10000, 100000))
